@@ -348,7 +348,8 @@ func (g *Generator) generateBindingFile(file *protogen.File) error {
 	gf.P("Violations: []*sebufhttp.FieldViolation{")
 	gf.P("{")
 	gf.P(`Field: "body",`)
-	gf.P(`Description: fmt.Sprintf("failed to parse request body: %v", err),`)
+	// The decoder's error quotes the offending input: keep the description a valid proto3 string
+	gf.P(`Description: strings.ToValidUTF8(fmt.Sprintf("failed to parse request body: %v", err), "\uFFFD"),`)
 	gf.P("},")
 	gf.P("},")
 	gf.P("}")
